@@ -185,6 +185,12 @@ def regenerate(log):
     lk = _lock()
     try:
         r = subprocess.run([sys.executable, ext], capture_output=True, text=True)
+        # the translator of the character-level state machines (ViaGen/*.lean); a class it cannot translate leaves
+        # no file, so only the proofs that import that translation stop building
+        tr = os.path.join(VERIF, "tools", "cxx2lean.py")
+        r2 = subprocess.run([sys.executable, tr], capture_output=True, text=True)
+        if r2.returncode != 0:
+            log("translator: " + (r2.stdout + r2.stderr)[-600:])
         return r.returncode == 0, r.stdout + r.stderr
     finally:
         lk.close()
@@ -206,7 +212,7 @@ def import_closure(modules):
     todo = list(modules)
     while todo:
         m = todo.pop()
-        if m in seen or not (m.startswith("ViaModel") or m.startswith("ViaProofs")):
+        if m in seen or not (m.startswith("ViaModel") or m.startswith("ViaProofs") or m.startswith("ViaGen")):
             continue
         p = os.path.join(LEAN_DIR, m.replace(".", "/") + ".lean")
         if not os.path.exists(p):
@@ -224,7 +230,7 @@ def audit_sources(modules=None):
     bad = []
     if modules is None:
         files = []
-        for d in ("ViaModel", "ViaProofs"):
+        for d in ("ViaModel", "ViaProofs", "ViaGen"):
             for root, _, fns in os.walk(os.path.join(LEAN_DIR, d)):
                 files += [os.path.join(root, fn) for fn in fns if fn.endswith(".lean")]
     else:
